@@ -110,16 +110,18 @@ impl TpmServer1_2 {
             creator_revision: crate::CREATOR_REVISION,
         };
         let tcg_spec_rev_bcd = [1u8, 2];
+        let platform_class = PlatformClass::Server as u16;
 
         let mut cksum = Checksum::default();
         cksum.append(header.as_bytes());
+        cksum.append(platform_class.as_bytes());
         cksum.append(&tcg_spec_rev_bcd);
         header.checksum = cksum.value();
 
         Self {
             header,
             tcg_spec_rev_bcd,
-            platform_class: (PlatformClass::Server as u16).into(),
+            platform_class: platform_class.into(),
             ..Default::default()
         }
     }
